@@ -91,7 +91,11 @@ impl SemanticState {
             &parser::parse_str(&text).map_err(|e| {
                 let span = e.span();
                 let proc_macro2::LineColumn { mut line, mut column } = span.start();
-                if span.start() == span.end() {
+                // Errors of the tokeniser have an empty span too, but at the right place.
+                let ended_early = span.start() == span.end()
+                    && (line, column) == (1, 0)
+                    && text.parse::<proc_macro2::TokenStream>().is_ok();
+                if ended_early {
                     // The input ended too early: there is no token the error could point at
                     // (the span is the empty one at 1:0). It is where the text ends.
                     for (index, text_line) in text.lines().enumerate() {
